@@ -256,7 +256,7 @@ def register_dwarf_layouts():
                 continue
             fields[n] = shape_of(sub)
         if name not in LAYOUTS:
-            lay = Layout(name, fields, size=None, minsize=0, nf=None)
+            lay = Layout(name, fields, size=None, minsize=min(sum(_min_size(sub)[0] for _n, sub in v[name][1]) for v in variants), nf=None)
             lay.offset_facts = _offset_facts([v[name] for v in variants])
             register_layout(lay)
     fixed = {'Dwarf_uint8': (1, S.U8), 'Dwarf_uint16': (2, S.U16), 'Dwarf_uint24': (3, S.U(24)), 'Dwarf_uint32': (4, S.U32),
